@@ -59,8 +59,8 @@ type c06World struct {
 	createRet    time.Time
 	target       string
 	targetClient int64
-	clock        atomic.Int64 // logical clock: one tick per call / return event
-	expiredAt    int64        // logical instant after which the code is certainly expired (0 = never)
+	clock        atomic.Int64    // logical clock: one tick per call / return event
+	expiredAt    int64           // logical instant after which the code is certainly expired (0 = never)
 	foreign      map[string]bool // target addresses of other codes deliberately present in the store
 }
 
@@ -125,10 +125,10 @@ type c06Call struct {
 	// reservation, mapping write, index append) that certainly started after the code's
 	// activation window had ended, so its commit step certainly ran on an expired code
 	CommitAfterExpiry bool                `json:"commit_after_expiry,omitempty"`
-	ret       *models.PortMapping // returned object
-	callT     time.Time
-	retT      time.Time
-	done      bool
+	ret               *models.PortMapping // returned object
+	callT             time.Time
+	retT              time.Time
+	done              bool
 }
 
 func (w *c06World) do(c *c06Call) {
